@@ -431,9 +431,6 @@ MUTANTS = [
                     local_sketch.n_added_records[1] += np.uint64(n_records)
                 except:
                     pass""")]),
-    dict(name="c08-return-order-hh-hll-swapped", props=["C08"], edits=[(HP, """    elif hh_args and hll_args:
-        return hh_final, hll_final""", """    elif hh_args and hll_args:
-        return hll_final, hh_final""")]),
     dict(name="c08-one-pill-too-few-for-many-workers", props=["C08"], edits=[(HP, """    for _ in range(n_workers):
         queue.put(None)""", """    for _ in range(min(n_workers, 7)):
         queue.put(None)""")]),
